@@ -90,6 +90,13 @@ def judge(ctx, cs, text, label, detail_extra=None):
         sig, line = classify_syntax_error(stub, e)
         ctx.violation("syntax", sig, dict(det, line=line, error=str(e)))
         return
+    try:
+        # (ast.parse accepts some texts the compiler rejects, e.g. duplicate argument names)
+        compile(stub, "<stub>", "exec", dont_inherit=True)
+    except SyntaxError as e:
+        sig, line = classify_syntax_error(stub, e)
+        ctx.violation("syntax", sig, dict(det, line=line, error=str(e)))
+        return
     ctx.event("valid_python")
     cls = tree.body[0]
     if not isinstance(cls, ast.ClassDef):
@@ -236,9 +243,14 @@ def special_forms(ctx):
                           if False else "typedef uint16 W1;\ntypedef W1 W2;\ntypedef uint16 W3;\ntypedef uint32 H1;\ntypedef uint32 H2;\ntypedef struct _S { W2 a; W1 b[2]; H2 c; } S, S2;\ntypedef S S3;", None),
         ("nested-anon-array", "struct T { struct { uint8 x; struct { uint16 y; } inner[2]; } outer[3]; union { uint8 u1; "
                               "uint16 u2; }; };", None),
-        ("string-alias", "struct T { uint8 a; };", lambda cs: cs.add_type("alias_of_uint8", "uint8")),
+        ("string-alias", "struct T { uint8 a; };", lambda cs: (cs.add_type("alias_of_uint8", "uint8"),
+                                                              cs.add_type("alias_of_words", "unsigned int"),
+                                                              cs.add_type("alias_of_synonym", "BYTE"),
+                                                              cs.add_type("alias_of_struct", "T"))),
         ("flag-and-enum", "flag FL1 : uint16 { FA, FB, FC = 0x10 };\nenum EN1 { EA, EB = 5 };\n"
                           "struct T { FL1 f; EN1 e[2]; FL1 b : 3; uint16 r : 13; };", None),
+        ("string-alias-before-target", "struct Later { uint8 a; };\nstruct T { Later l; };",
+         None),
         ("enum-and-flag-aliases", "enum Color : uint8 { RED, GREEN };\ntypedef Color color_t;\ntypedef color_t color2_t;\n"
                                   "flag Perm : uint16 { PR, PW };\ntypedef Perm perm_t;\n"
                                   "struct T { color_t c; perm_t p; color2_t d[2]; Perm q : 3; uint16 r : 13; };", None),
@@ -249,7 +261,12 @@ def special_forms(ctx):
     ]
     for label, text, post in forms:
         try:
-            cs = lib.load(text)
+            if label == "string-alias-before-target":
+                cs = lib.cstruct()
+                cs.add_type("early_t", "Later")      # by-name reference registered before the type it names
+                cs.load(text)
+            else:
+                cs = lib.load(text)
             if post:
                 post(cs)
         except Exception as e:  # noqa: BLE001
